@@ -89,9 +89,9 @@ impl<'a> BufRead for ChunkedReader<'a> {
 	fn consume(&mut self, amt: usize) {
 		if self.pos + amt > self.chunk_end {
 			// BufRead contract broken by the caller: remember it, the property reports it
+			// (std's BufReader and Take clamp to what they exposed; so does this double)
 			self.over_consumed = true;
-			self.pos = (self.pos + amt).min(self.data.len());
-			self.chunk_end = self.pos;
+			self.pos = self.chunk_end;
 			return;
 		}
 		self.pos += amt;
